@@ -75,6 +75,18 @@ def cases(ctx):
                 if ctx.mine():
                     yield {"version": version, "fail19": fail19 if version.startswith("2") else [],
                            "steps": PRE + histories.wide_unknown_nodes(n)}
+    for i in range(ctx.pick(300, 12000) // ctx.shard_count):
+        version = [None, *VERSIONS][i % 6]
+        yield {"version": version, "steps": PRE + histories.rich_history(rng, version, rng.choice([20, 60, 150]))}
+    # an application that sends a presentation request itself does not open an episode
+    for version in ("2.0", "2.1", "2.2"):
+        for buffered in (True, False):
+            for lines in ([f"{U1};0;1;0;0;1"], [f"{U1};0;1;0;0;1", f"{U1};255;3;0;0;5"], [f"{K};9;1;0;0;1", f"{K};9;2;0;0;"]):
+                if ctx.mine():
+                    target = U1 if lines[0].startswith(f"{U1};") else K
+                    yield {"version": version, "steps": PRE + [["tx", [target, 255, 3, 0, 19, ""], buffered]]
+                           + [["rx", line + "\n"] for line in lines] + [["tx", [target, 255, 3, 0, 19, ""], buffered]]
+                           + [["rx", line + "\n"] for line in lines]}
     # version unknown / changing: requests follow the protocol in force
     for i in range(ctx.pick(100, 3000) // ctx.shard_count):
         gen = histories.HistoryGen(rng, None)
